@@ -199,6 +199,21 @@ def _limit_threads() -> None:
         torch.backends.mkldnn.enabled = False
     except Exception:
         pass
+    # Every log record of the library is really produced and formatted (as with a verbose log level in a user's script), so that
+    # whatever a log statement evaluates is evaluated; the text goes nowhere.
+    import logging
+
+    class _Swallow(logging.Handler):
+        def emit(self, record):
+            try:
+                self.format(record)
+            except Exception:  # noqa: BLE001
+                pass
+    lg = logging.getLogger('kfac')
+    if not any(isinstance(h, _Swallow) or type(h).__name__ == '_Swallow' for h in lg.handlers):
+        lg.addHandler(_Swallow())
+    lg.setLevel(logging.DEBUG)
+    lg.propagate = False
 
 
 def _run_one(prop: Prop, case: Any, stats: Stats, source: str, open_keys: dict) -> Outcome | None:
